@@ -29,7 +29,8 @@ class Ctx:
         self.seed = int(os.environ.get("VERIF_SEED", "1") or 1)
         self.t0 = time.time()
         self.scratch = tempfile.mkdtemp(prefix="vcheck-%s-" % pid, dir=os.environ.get("VERIF_TMP", "/tmp"))
-        atexit.register(shutil.rmtree, self.scratch, True)
+        if not os.environ.get("VERIF_KEEP_SCRATCH"):
+            atexit.register(shutil.rmtree, self.scratch, True)
         self.violations = []      # (signature, replay path, text)
         self.known = []           # known-finding lines
         self.drift = []           # model drift notes
